@@ -44,6 +44,23 @@ def scripts(rng, q):
                                 "conns": [{"bytes": stream, "at": k, "fault": "stall" if k < n else "none", "close_after": close_after}, LATER]})
                     if when == "start":
                         break
+    # a NEW request issued on the same evhttp_connection after the earlier ones are settled ("after") or from inside the
+    # completion callback ("in_cb"); first connect attempt refused and a retry succeeding (the port starts listening late);
+    # evhttp_connection_free_on_completion with a Connection: close response
+    R2 = "HTTP/1.1 200 OK\r\nContent-Length: 2\r\n\r\nxy"
+    RC = "HTTP/1.1 200 OK\r\nConnection: close\r\nContent-Length: 3\r\n\r\nabc"
+    for errcb in (0, 1):
+        for late, retries in ((1, 1), (1, 2), (0, 0), (0, 1)):
+            for fault, at in (("eof", 0), ("eof", 10), ("eof", len(R1) - 1), ("rst", 5), ("stall", 20), ("none", 0)):
+                out.append({"mode": "clientfault", "reqs": ["GET"], "retries": retries, "errcb": errcb, "timeout_ms": 60,
+                            "late_listen": late, "followup": "after",
+                            "conns": [{"bytes": R1, "at": at, "fault": fault, "close_after": 0}, {"bytes": R2, "fault": "none"},
+                                      {"bytes": R2, "fault": "none"}]})
+        for first, close_after in ((RC, 1), (RC, 0), (R1, 0)):
+            for autofree in (1, 0):
+                out.append({"mode": "clientfault", "reqs": ["GET"], "retries": 0, "errcb": errcb, "timeout_ms": 60, "autofree": autofree,
+                            "followup": "in_cb",
+                            "conns": [{"bytes": first, "fault": "none", "close_after": close_after}, {"bytes": R2, "fault": "none"}]})
     for retries in (0, 1, 2):
         for errcb in (0, 1):
             out.append({"mode": "clientfault", "reqs": ["GET", "POST"], "retries": retries, "errcb": errcb, "timeout_ms": 60, "deadport": 1, "conns": []})
